@@ -243,6 +243,34 @@ func c05Gen(rng *rand.Rand, tier string) []core.Spec {
 			}
 		}
 	}
+	// a compressed message cut inside, read with Read calls that go on after the first error: the
+	// reader of a partly received message never reports io.EOF, however often it is asked
+	for _, server := range []bool{false, true} {
+		var z bytes.Buffer
+		fw, _ := flate.NewWriter(&z, 6)
+		fw.Write(genPayload(rng, 900, [4]byte{}))
+		fw.Flush()
+		wire := z.Bytes()[:z.Len()-4]
+		k := genKey(rng)
+		for _, frames := range [][]Frame{
+			{{Fin: true, Rsv: 4, Op: 2, Masked: server, Key: k, Payload: wire}},
+			{{Fin: false, Rsv: 4, Op: 2, Masked: server, Key: k, Payload: wire[:len(wire)/2]}, {Fin: true, Op: 0, Masked: server, Key: k, Payload: wire[len(wire)/2:]}},
+		} {
+			stream, _ := encodeAll(frames)
+			for _, cut := range []int{3, 9, len(stream) / 3, len(stream) / 2, len(stream) - 5, len(stream) - 1} {
+				for fault := 0; fault < 3; fault++ {
+					for _, glued := range []bool{false, true} {
+						ops := []ROp{{K: 0}}
+						for i := 0; i < 14; i++ {
+							ops = append(ops, ROp{K: 1, M: core.Pick(rng, []int{64, 200, 4096})})
+						}
+						out = append(out, &ReaderSpec{Prop: 5, Server: server, Negotiated: true, RBuf: core.Pick(rng, []int{125, 4096}), Chunks: []B{B(stream[:cut])},
+							Fault: fault, Glued: glued, Cmp: false, Ops: ops, Note: "compressed-cut-reads-after-error"})
+					}
+				}
+			}
+		}
+	}
 	// a transport failure inside a message, further Reads on the failed reader, then NextReader up to
 	// and past the documented threshold: only failed NextReader calls count towards the 1000
 	for _, server := range []bool{false, true} {
